@@ -184,6 +184,50 @@ def handleScan (ds : DState) (sc : ScanCase) : DState × Json :=
           toString (ds.ctl.cfgs.length - sc.obs.recs.length) ++ ":" ++ sc.obs.outcome]
       else []
     let mons := mons ++ mon12
+    -- C18/C02: a cool-down may start only when the cloud accepted an increase in this scan (outside dry mode)
+    let monLock : List String := sc.obs.recs.flatMap (fun ob =>
+      match ds.ctl.cfgs.find? (fun c => c.name == ob.name), findState st.groups ob.name, sc.obs.states.find? (fun os => os.name == ob.name) with
+      | some c, some pre, some post =>
+        if !(ds.ctl.globalDry || c.dryMode) && !acceptedRaise ob.j && post.lockTime == some sc.nowReal && pre.lock.lockTime != some sc.nowReal then
+          let d := ob.name ++ ":a cool-down was started in this scan although the cloud accepted no increase"
+          ["C18:" ++ d, "C02:" ++ d]
+        else []
+      | _, _, _ => [])
+    -- C08 in dry mode: the nodes newly recorded as tainted must be the oldest of the untainted ones
+    let monDry08 : List String := sc.obs.recs.flatMap (fun ob =>
+      match ds.ctl.cfgs.find? (fun c => c.name == ob.name), findState st.groups ob.name, sc.obs.states.find? (fun os => os.name == ob.name) with
+      | some c, some pre, some post =>
+        if ds.ctl.globalDry || c.dryMode then
+          let added := post.taintTracker.filter (fun x => !pre.taintTracker.contains x)
+          let unt := nodesOf true pre .untainted (viewOf c sc.pods sc.nodes).nodes
+          let bad := unt.filter (fun u => !added.contains u.name && unt.any (fun t => added.contains t.name && u.created < t.created))
+          if bad.isEmpty then [] else
+            ["C08:" ++ ob.name ++ ":dry mode recorded " ++ toString added ++ " as tainted although " ++ toString (bad.map (·.name)) ++ " are strictly older and stay untainted"]
+        else []
+      | _, _, _ => [])
+    let mons := mons ++ monLock ++ monDry08
+    -- C14/C12 at controller level: what each group's own listers return is exactly what the documented rule attributes
+    -- to it (`viewOf`, proved equal to the rule: C14_view); a disagreement names the pod or node
+    let sortS (l : List String) : List String := l.mergeSort (fun a b => decide (a ≤ b))
+    let monLists : List String := (sc.lists.getD []).flatMap (fun ol =>
+      match ds.ctl.cfgs.find? (fun c => c.name == ol.name) with
+      | none => []
+      | some c =>
+        let v := viewOf c sc.pods sc.nodes
+        let wantP := sortS (v.pods.map (·.name))
+        let wantN := sortS (v.nodes.map (·.name))
+        let extraP := ol.pods.filter (fun x => !wantP.contains x)
+        let missP := wantP.filter (fun x => !ol.pods.contains x)
+        let extraN := ol.nodes.filter (fun x => !wantN.contains x)
+        let missN := wantN.filter (fun x => !ol.nodes.contains x)
+        if ol.pods == wantP && ol.nodes == wantN then [] else
+          let d := "group " ++ ol.name ++ " lists pods " ++ toString extraP ++ " it must not and misses " ++ toString missP ++
+                   "; nodes extra " ++ toString extraN ++ " missing " ++ toString missN
+          ["C14:attribution:" ++ d, "C12:attribution:" ++ d])
+    -- shared informer objects must not be modified by the controller (the next scan would read the modification)
+    let monMut : List String := (sc.mutated.getD []).flatMap (fun x =>
+      ["C13:lister-object-modified:" ++ x, "C15:lister-object-modified:" ++ x])
+    let mons := mons ++ monLists ++ monMut
     let mons := mons ++ mon20
     let armed' : List (String × Int) := sc.obs.recs.foldl (fun acc ob =>
       if acceptedRaise ob.j then (ob.name, sc.nowReal) :: acc.filter (fun p => p.1 != ob.name) else acc) ds.armed
